@@ -20,8 +20,17 @@ def validate_hdlc_address(instance, attribute, value):
 
     """
     if (attribute.name == "physical_address") & (value is None):
-        # we allow physical address to be none.
+        # we allow physical address to be none. But a server logical address that
+        # needs two bytes can only be sent in the four byte form, together with a
+        # physical address.
+        if instance.address_type == "server" and instance.logical_address > 0b01111111:
+            raise ValueError(
+                "A server logical address above 127 needs a physical address."
+            )
         return
+
+    if (attribute.name == "physical_address") & (instance.address_type == "client"):
+        raise ValueError("A client address is always one byte, without physical address")
 
     if instance.address_type == "client":
         address_limit = 0b01111111
